@@ -98,7 +98,14 @@ pub enum SpawnSpec {
     /// `hannibal::build(..)....spawn()/spawn_owning()`
     Build { mailbox: Mailbox, strategy: RStrat, timeout: Option<u32>, fail_on_timeout: bool, owning: bool },
     /// stream attached; `builder: None` = `spawn_on_stream` / `spawn_owning_on_stream`
-    Stream { builder: Option<Mailbox>, owning: bool },
+    Stream {
+        builder: Option<Mailbox>,
+        owning: bool,
+        /// a handler timeout configured on the builder before the stream is attached (only with a builder;
+        /// stream-attached actors never abandon an invocation, so it must have no effect)
+        #[serde(default)]
+        timeout: Option<(u32, bool)>,
+    },
     /// spawn (optionally through the builder) and `register()` as the service of its kind
     Register { builder: Option<Mailbox> },
 }
